@@ -107,7 +107,8 @@ def query(m, op, g, rng):
 def build_volume(g):
     import mouette as M
     from mouette.geometry import Vec
-    P = g["P"]
+    sc = 10.0 ** (-g.get("scale10", 0))          # the same complex at another size: the connectivity and the orientation do not depend on it
+    P = [[c * sc for c in p] for p in g["P"]] if sc != 1.0 else g["P"]
     if g["container"] == "from_arrays":
         return M.mesh.from_arrays(np.array(P, dtype=float), C=np.array(g["C"]))
     data = M.mesh.RawMeshData()
@@ -271,6 +272,8 @@ def run(ctx):
             kpool.append((Pv, Cv))
     for j, (P, C) in enumerate(kpool):
         cases.append({"id": "K-%d" % j, "given": {"P": P, "C": C, "sorted": 1, "family": "K", "container": conts[j % 4]}, "events": _history(rng)})
+        if j % 3 == 0:       # the same complex a thousand times smaller (cells of volume ~1e-10)
+            cases.append({"id": "K-%d-tiny" % j, "given": {"P": P, "C": C, "sorted": 1, "family": "K", "container": conts[j % 4], "scale10": 3}, "events": _history(rng)})
     small = [c for c in cases if len(c["given"]["C"]) <= 12]
     for i, h in enumerate(hists):
         base = small[i % len(small)]
